@@ -239,6 +239,13 @@ func (h *Handler) handleRequest(host *packet.Host, p packet.DHCP4, options packe
 			lease.IPOffer = netip.Addr{}
 			return nakPacket(p, subnet.DHCPServer.AsSlice(), clientID)
 		}
+		// the address was free when offered; another station may have started using it since
+		if host := h.session.FindIP(lease.IPOffer); host != nil && !bytes.Equal(host.MACEntry.MAC, lease.Addr.MAC) {
+			Logger.Msg("request NACK - offered address is in use by another host").ByteArray("xid", p.XId()).IP("ip", lease.IPOffer).Write()
+			lease.State = StateFree
+			lease.IPOffer = netip.Addr{}
+			return nakPacket(p, subnet.DHCPServer.AsSlice(), clientID)
+		}
 		lease.Addr.IP = lease.IPOffer
 		lease.IPOffer = netip.Addr{}
 	}
